@@ -13,13 +13,16 @@
    reader bargers, and a light mix with two blocking victims.
 
    Oracles: the number of times the victim sleeps inside ONE lock call is at most
-   LONG_WAIT_THRESHOLD + 2 = 32 (checked while it is still inside, by the bargers, and on
+   LONG_WAIT_THRESHOLD + 2 (the constant is read from the tree under test; checked while it is still inside, by the bargers, and on
    return); word-level: no acquiring CAS succeeds from a word with the long-wait bit set
    when the acquiring thread has not slept during its current operation.  */
-#include "common.h"
+#include "sc.h"
+#include "dll.h"
+#include "sem.h"
+#include "wait_internal.h"
+#include "common.h"    /* internal/common.h of the tree under test: LONG_WAIT_THRESHOLD, MU_LONG_WAIT */
 
-#define MU_LONG_WAIT 0x40u
-#define BOUND 32
+#define BOUND (LONG_WAIT_THRESHOLD + 2)
 static struct {
 	nsync_mu mu;
 	int mix, nbarg, nacq, nvict;
